@@ -606,8 +606,10 @@ class C19(PropertyCheck):
                     res.bump("ev:" + e[1] + (":" + str(e[3]).lower() if len(e) > 3 else ""))
             res.bump("kinds=" + "+".join(case["kinds"]))
             impl_view = {"outs": real["outs"], "loads": real["loads"], "tapps": real["tapps"], "dict": real["dict"],
-                         "trace": strip_trace(real["trace"])}
-            model_view = {k: model.get(k) for k in ("outs", "loads", "tapps", "dict", "trace")}
+                         "trace": strip_trace(real["trace"]),
+                         # the real run (in-place transform on mutable payloads) is also what the mutable-payload model must give
+                         "mut_outs": real["outs"], "mut_dict": real["dict"]}
+            model_view = {k: model.get(k) for k in ("outs", "loads", "tapps", "dict", "trace", "mut_outs", "mut_dict")}
             if model.get("error") or impl_view != model_view:
                 if len(res.disagreements) < 40:
                     res.disagreements.append(Disagreement(case, model_view if not model.get("error") else model, impl_view))
